@@ -35,7 +35,7 @@ ANCHORS = [
     "acnportal.acnsim.analysis:energy_cost",
     "acnportal.acnsim.analysis:demand_charge",
 ]
-REQUIRED = ["sub_second_instants", "vector_lookups_with_periods_of_days_or_months", "lookups_judged", "vector_lookups", "interface_price_vectors", "cost_checks", "regime:wrapped-season",
+REQUIRED = ["cost_checks_under_another_tariff_in_the_same_process", "sub_second_instants", "vector_lookups_with_periods_of_days_or_months", "lookups_judged", "vector_lookups", "interface_price_vectors", "cost_checks", "regime:wrapped-season",
             "regime:weekend", "regime:weekday", "regime:leap-day"]
 BUDGET_S = {"quick": 240, "thorough": 3000}
 EXHAUSTIVE = {"quick": "all 14 calendar types x every day x boundary instants x 5 files",
@@ -303,6 +303,26 @@ def _run_sim(case, obs):
             obs.violate("energy_cost", f"{c!r} expected {exp_cost!r}", file=name)
         if not (abs(dch - exp_dc) <= 1e-9 * max(1.0, abs(exp_dc))):
             obs.violate("demand_charge", f"{dch!r} expected {exp_dc!r}", file=name)
+    # the same simulation costed under every bundled tariff in turn, in this one process (two of the files carry the same tariff
+    # name and effective date): each result is that file's own sum(price x power x dt)
+    from acnportal.signals.tariffs.tou_tariff import TimeOfUseTariff
+    order = list(FILES)
+    rng.shuffle(order)
+    for other in order:
+        o_tar, o_orc = _load(other)
+        try:
+            o_prices = [o_orc.lookup(start + timedelta(minutes=per) * k)[0] for k in range(T)]
+            o_dc = o_orc.lookup(start)[1] * max(power)
+        except LookupError:
+            continue
+        o_cost = sum(p * w for p, w in zip(o_prices, power)) * (per / 60.0)
+        c = acnsim.energy_cost(sim, tariff=o_tar)
+        dch = acnsim.demand_charge(sim, tariff=o_tar)
+        obs.ev("cost_checks_under_another_tariff_in_the_same_process")
+        if not (abs(c - o_cost) <= 1e-9 * max(1.0, abs(o_cost))):
+            obs.violate("energy_cost", f"costed under {other} after {name}: {c!r} expected {o_cost!r}", file=other, after=name)
+        if not (abs(dch - o_dc) <= 1e-9 * max(1.0, abs(o_dc))):
+            obs.violate("demand_charge", f"under {other} after {name}: {dch!r} expected {o_dc!r}", file=other, after=name)
     if max(power) > 0 and len(seen) >= 2:
         obs.nontrivial()
     obs.sample = {"kind": "sim", "file": name, "start": start.isoformat(), "period": per, "queries": len(seen), "cost": exp_cost}
